@@ -10,7 +10,8 @@
    different size; KeyError when only the left object has a `gradient` attribute attached; "equal" for a
    default 1-d geometry against a StepExpansion / user Continuous1D subclass on the same grid) -- all
    only under q_today. *)
-From CV Require Import Base.Tac Base.LinAlg Base.QcLin Base.Cmp Model.C12_Model Proofs.C12_Model Proofs.C12_Chain.
+From CV Require Import Base.Tac Base.LinAlg Base.QcLin Base.Cmp Model.C12_Model Model.C12_Jac Model.C12_Pde Model.C12_Args
+     Proofs.C12_Model Proofs.C12_Chain Proofs.C12_Instances Proofs.C12_Pde Proofs.C12_Deriv Proofs.C12_Args.
 From Coq Require Import QArith Qcanon.
 
 (* Parameter vector, function values flagged as such, CUQIarray carrying the domain geometry as parameters
@@ -210,10 +211,12 @@ Proof. exact example_nonvacuous. Qed.
    element-wise geometry maps phi_G that the correspondence runs, so the chain rule needs no assumed law.
    --------------------------------------------------------------------------------------------------- *)
 
-(* pderiv (computed by the model, not handed over by the harness) is the derivative: exact Taylor form *)
-Theorem C12_pderiv_is_derivative : forall cs x h,
-  exists r, peval cs (x + h) = peval cs x + h * peval (pderiv cs) x + h * h * r.
-Proof. exact pderiv_taylor. Qed.
+(* pderiv (computed by the model, not handed over by the harness) is the derivative.  Round 3: stated at full strength --
+   the remainder is ONE polynomial in h chosen before h (with `exists r` after `forall h`, as in round 2, any value
+   would qualify as "derivative" for h <> 0) *)
+Theorem C12_pderiv_is_derivative : forall cs x,
+  exists rs, forall h, peval cs (x + h) = peval cs x + h * peval (pderiv cs) x + h * h * peval rs h.
+Proof. exact pderiv_sderiv. Qed.
 Print Assumptions C12_pderiv_is_derivative.
 
 (* the direction-Jacobian product written by a user, phi'(w) * (A^T d), is the transposed Jacobian
@@ -223,16 +226,7 @@ Theorem C12_gradient_callable_is_transposed_jacobian : forall n A dcs d w,
 Proof. exact poly_dir_is_transposed_jacobian. Qed.
 Print Assumptions C12_gradient_callable_is_transposed_jacobian.
 
-(* par2out_jac A csF csG p = A diag(phi_F'(phi_G p)) diag(phi_G'(p)) IS the Jacobian of the
-   parameter-to-output map p |-> A phi_F(phi_G(p)) + b: first-order expansion with a quadratic remainder *)
-Theorem C12_par2out_jacobian_law : forall n A csF csG b p h,
-  wf_mat n A -> length p = n -> length h = n ->
-  exists r, length r = n /\
-    poly_forward A csF b (pmap csG (qvadd p h)) =
-    qvadd (qvadd (qvadd (qmatvec A (pmap csF (pmap csG p))) (qmatvec (par2out_jac A csF csG p) h))
-                 (qmatvec A (vmul (vmul h h) r))) b.
-Proof. exact par2out_jacobian_law. Qed.
-Print Assumptions C12_par2out_jacobian_law.
+(* (the Jacobian law of the parameter-to-output map is C12_par2out_jacobian_law below, for every geometry instance) *)
 
 (* FULL chain rule (no assumed law): for every model of the polynomial family given by Jacobian, by
    direction-Jacobian product or as a PDE model (either attribute), every element-wise domain geometry with
@@ -349,3 +343,187 @@ Proof.
   split; [repeat split|]. split; [right; left; exists SelWrtDir; reflexivity|].
   split; [repeat constructor | vm_compute; reflexivity].
 Qed.
+
+(* ===================================================================================================
+   ROUND 3
+   =================================================================================================== *)
+
+(* ---- (i) the chain rule as a theorem about the instances the correspondence evaluates ---------------
+   geo_jac dg w (Model/C12_Jac.v) is the Jacobian of par2fun computed BY THE MODEL for: identity-type geometries
+   (Continuous1D, Discrete, int default, Image2D C-order / visual_only, Continuous2D, tuple default; with or without an
+   attached gradient that multiplies by 1), element-wise geometries with their gradient (MappedGeometry, user subclasses
+   of Continuous1D / Geometry: diag(phi_G'(w)), phi_G' by pderiv), StepExpansion with the step-sum gradient (0/1 matrix),
+   linear expansions (KLExpansion) with the gradient K^T direction (K).  model_gfun: Model(jacobian=), Model(gradient=),
+   PDEModel with gradient_wrt_parameter / jacobian_wrt_parameter / both, LinearModel(matrix), LinearModel(callables).
+   No Jacobian law is a hypothesis (the hypothesis-taking general lemma remains C12_gradient_chain). *)
+Theorem C12_gradient_chain_rule : forall q gf rg dg n A csF d w wf JG,
+  model_gfun gf n A csF -> plain1d (g_cls rg) = true ->
+  wf_mat n A -> length d = length A ->
+  geo_jac dg w = Some JG -> g_par2fun dg w = Ok wf -> length wf = n ->
+  gradient q gf rg dg (GiVec d) (GiVec w) true true =
+  Ok (OutVec (qmattvec (length w) (qmatmul (length w) (poly_jac A (pderiv csF) wf) JG) d) false).
+Proof. exact gradient_chain_rule. Qed.
+Print Assumptions C12_gradient_chain_rule.
+
+(* the value the generated cells compute with check_chain_rule and compare with the implementation's gradient *)
+Theorem C12_chain_rule_value_is_gradient : forall q gf rg dg n A csF d w g,
+  model_gfun gf n A csF -> plain1d (g_cls rg) = true -> wf_mat n A -> length d = length A ->
+  (forall wf, g_par2fun dg w = Ok wf -> length wf = n) ->
+  chain_rule_value A csF dg d w = Some g ->
+  gradient q gf rg dg (GiVec d) (GiVec w) true true = Ok (OutVec g false).
+Proof. exact chain_rule_value_is_gradient. Qed.
+Print Assumptions C12_chain_rule_value_is_gradient.
+
+(* geo_jac IS the Jacobian of par2fun: along every line w + t h, par2fun is wf + t (J_G h) + t^2 R(t) for all t with one
+   vector R of polynomials (exactly linear, R = 0, for the identity-type, step and linear-expansion instances) *)
+Theorem C12_geo_jac_is_jacobian : forall dg w wf JG,
+  geo_jac dg w = Some JG -> g_par2fun dg w = Ok wf ->
+  forall h, length h = length w ->
+  exists c2, length c2 = length wf /    forall t, g_par2fun dg (qvadd w (qvscale t h)) =
+              Ok (qvadd (qvadd wf (qvscale t (qmatvec JG h))) (qvscale (t * t)%Qc (pvec_eval c2 t))).
+Proof. exact geo_jac_is_jacobian. Qed.
+Print Assumptions C12_geo_jac_is_jacobian.
+
+(* ... and J_F(par2fun w) J_G(w) is the Jacobian of the parameter-to-output map p |-> A phi_F(par2fun p) + b (plain range
+   geometry): the matrix whose transpose C12_gradient_chain_rule says Model.gradient applies *)
+Theorem C12_par2out_jacobian_law : forall n A csF b dg w wf JG,
+  geo_jac dg w = Some JG -> g_par2fun dg w = Ok wf -> wf_mat n A -> length wf = n -> length b = length A ->
+  forall h, length h = length w -> length (qmatvec JG h) = n ->
+  exists c2, length c2 = length (poly_forward A csF b wf) /    forall t, par2out A csF b dg (qvadd w (qvscale t h)) =
+              Ok (qvadd (qvadd (poly_forward A csF b wf) (qvscale t (qmatvec (poly_jac A (pderiv csF) wf) (qmatvec JG h))))
+                        (qvscale (t * t)%Qc (pvec_eval c2 t))).
+Proof. exact par2out_jacobian. Qed.
+Print Assumptions C12_par2out_jacobian_law.
+
+Theorem C12_jacobian_product_apply : forall m (JF JG : mat) h, wf_mat m JG -> length h = m ->
+  qmatvec JF (qmatvec JG h) = qmatvec (qmatmul m JF JG) h.
+Proof. exact jacobian_product_apply. Qed.
+Print Assumptions C12_jacobian_product_apply.
+
+(* non-vacuity: geo_jac is defined for one geometry of each instance kind (identity with a unit gradient attached, mapped
+   f = 2p+1 with gradient, StepExpansion(4 nodes, 2 steps), a 3x2 linear expansion) and model_gfun holds for a matrix model *)
+Example C12_chain_rule_instances_example :
+  geo_jac (mkGeo KCont1D 3 3 CvId None F2Base (Some (GGDiag (pderiv (zq [0;1]%Z)) SelWrtDir)) 0) (zq [1;2;3]%Z) <> None /\
+  geo_jac (g_mapped 3 [1;2]%Z F2NoImap (Some (GGDiag (pderiv (zq [1;2]%Z)) SelDirWrt))) (zq [1;2;3]%Z) <> None /\
+  geo_jac (mkGeo KStep 2 4 (CvStep 4 [[0;1];[2;3]]%nat PMax false) None F2Base (Some (GGStepSum [[0;1];[2;3]]%nat)) 0) (zq [1;2]%Z) <> None /\
+  geo_jac (mkGeo KStep 2 3 (CvLin (map zq [[1;0];[1;1];[0;2]]%Z) (map zq [[1;0;0];[0;0;1]]%Z)) None F2Base
+                 (Some (GGMatT 2 (map zq [[1;0];[1;1];[0;2]]%Z))) 3) (zq [1;2]%Z) <> None /\
+  model_gfun (GAdjMat 3 w5_A) 3 w5_A (zq [0;1]%Z) /\
+  chain_rule_value w5_A (zq [0;0;1]%Z) (g_mapped 3 [1;2]%Z F2NoImap (Some (GGDiag (pderiv (zq [1;2]%Z)) SelDirWrt))) w5_d w5_w
+    = Some (zq [12;20;-84]%Z).
+Proof.
+  repeat split; try (vm_compute; discriminate).
+  - right; right; right; right; left. split; reflexivity.
+  - apply f_equal. apply qcl_eqb_eq. vm_compute. reflexivity.
+Qed.
+
+(* ---- (ii) get_non_default_args and the call func(x) ------------------------------------------------
+   A signature is the list of (name, kind, has a default) in declaration order, every parameter kind; the model names
+   the parameters that are neither variadic nor defaulted (non_default_args false = today's code, by kind).  For a
+   signature Python accepts (pos_defaults_ok) with exactly one such parameter p0: the model names exactly [p0], and the
+   call func(x) that _apply_func makes hands x to p0 with every other parameter at its default -- or, when p0 is
+   keyword-only, is refused with TypeError (never bound to another parameter). *)
+Theorem C12_forward_call_binds_named_argument : forall sg p0,
+  pos_defaults_ok false sg = true ->
+  filter required sg = [p0] ->
+  non_default_args false sg = [pa_name p0] /\
+  (positional (pa_kind p0) = true -> call1 sg = Some (BoundParam (pa_name p0))) /\
+  (pa_kind p0 = KKwOnly -> call1 sg = None).
+Proof. exact forward_call_binds_named_argument. Qed.
+Print Assumptions C12_forward_call_binds_named_argument.
+
+(* conversely, for ANY signature: if func(x) succeeds, every argument the model names is the parameter that received x *)
+Theorem C12_call_receiver_is_named : forall sg b, call1 sg = Some b ->
+  forall a, In a (non_default_args false sg) -> b = BoundParam a.
+Proof. exact call_receiver_is_named. Qed.
+Print Assumptions C12_call_receiver_is_named.
+
+(* Model.forward on top: positionally or under exactly that keyword, nothing else *)
+Theorem C12_forward_accepts_named : forall sg a bnd, call1 sg = Some bnd ->
+  forward_accepts [a] sg 1 [] = true /\ forward_accepts [a] sg 0 [a] = true /\
+  (forall k, k <> a -> forward_accepts [a] sg 0 [k] = false) /\
+  (forall k k' ks, forward_accepts [a] sg 0 (k :: k' :: ks) = false) /\
+  (forall n k ks, forward_accepts [a] sg (S n) (k :: ks) = false) /\
+  (forall n, forward_accepts [a] sg (S (S n)) [] = false).
+Proof. exact forward_accepts_named. Qed.
+Print Assumptions C12_forward_accepts_named.
+
+(* the code before /repo 074a70c (variadics recognised by the NAMES args / kwargs) was right exactly under the naming
+   convention, and wrong outside it: FIXED in /repo; witness kept *)
+Theorem C12_non_default_args_by_name_agrees_under_convention : forall sg,
+  (forall p, In p sg -> is_variadic (pa_kind p) = (String.eqb (pa_name p) "args" || String.eqb (pa_name p) "kwargs")%string) ->
+  non_default_args true sg = non_default_args false sg.
+Proof. exact by_name_agrees_under_convention. Qed.
+Print Assumptions C12_non_default_args_by_name_agrees_under_convention.
+
+Theorem C12_non_default_args_by_name_refuted :
+  non_default_args true sg_args = [] /\ non_default_args false sg_args = ["args"%string] /\
+  call1 sg_args = Some (BoundParam "args") /\
+  forward_accepts (non_default_args true sg_args) sg_args 1 [] = false /\
+  forward_accepts (non_default_args false sg_args) sg_args 1 [] = true /\
+  non_default_args true sg_rest = ["x"; "rest"; "options"]%string /\ non_default_args false sg_rest = ["x"%string] /\
+  forward_accepts (non_default_args true sg_rest) sg_rest 1 [] = false /\
+  forward_accepts (non_default_args false sg_rest) sg_rest 1 [] = true.
+Proof. exact witness_by_name. Qed.
+Print Assumptions C12_non_default_args_by_name_refuted.
+
+Example C12_args_example :
+  pos_defaults_ok false sg_example = true /\ filter required sg_example = [mkParam "a" KPosOnly false] /\
+  call1 sg_example = Some (BoundParam "a").
+Proof. exact args_example. Qed.
+
+(* ---- (iii) PDEModel inside the model ---------------------------------------------------------------
+   PDEModel._forward_func = assemble (stores operator and right-hand side ON the PDE object), solve, observe.  Whatever
+   state earlier calls left the PDE object in, the observation is a function of the input alone and the state afterwards
+   depends on the last input only. *)
+Theorem C12_pde_forward_is_function_of_input : forall P slv st x,
+  fst (pde_forward_func P slv st x) = Ok (f_apply (pde_fwd P slv) x) /\
+  snd (pde_forward_func P slv st x) = Some (pde_form P x).
+Proof. exact pde_forward_is_function_of_input. Qed.
+Print Assumptions C12_pde_forward_is_function_of_input.
+
+(* the solver the correspondence evaluates is CHECKED (inv_ok: elimination result multiplied back from both sides): its
+   answer solves the system and every solution equals it; so any solver that returns a solution returns this one *)
+Theorem C12_pde_solver_is_exact : forall n A rhs, inv_ok n A = true -> length rhs = n ->
+  qmatvec A (model_solve n A rhs) = rhs /\
+  (forall u, length u = n -> qmatvec A u = rhs -> u = model_solve n A rhs).
+Proof. exact model_solve_correct. Qed.
+Print Assumptions C12_pde_solver_is_exact.
+
+Theorem C12_pde_any_solver_agrees : forall n A rhs (slv : mat -> vec -> vec), inv_ok n A = true -> length rhs = n ->
+  length (slv A rhs) = n -> qmatvec A (slv A rhs) = rhs -> slv A rhs = model_solve n A rhs.
+Proof. exact any_solver_agrees. Qed.
+Print Assumptions C12_pde_any_solver_agrees.
+
+(* the generated PDE forms (constant or parameter-dependent operator, optional observation map) *)
+Theorem C12_pde_case_forward : forall n (xdep : bool) T A0 cs b0 obs x,
+  inv_ok n (if xdep then pde_xop T x else T) = true -> length (poly_forward A0 cs b0 x) = n ->
+  f_apply (pde_fwd (mkPde (pde_case_form xdep T A0 cs b0) obs) (model_solve n)) x =
+  match obs with Some f => f (poly_forward A0 cs b0 x) | None => poly_forward A0 cs b0 x end.
+Proof. exact pde_case_forward. Qed.
+Print Assumptions C12_pde_case_forward.
+
+(* "same result for every representation of the input" for PDE models: NO guard (the solver hands back a plain array, so the
+   geometry comparison of the output never happens), any solver, any PDE form, any state of the PDE object *)
+Theorem C12_pde_representations_agree : forall q P slv rg dg p fv,
+  g_par2fun dg p = Ok fv ->
+  let F := pde_fwd P slv in
+  forward q F rg dg (InVec p) true = rmap (out_of false rg) (core F rg fv) /\
+  forward q F rg dg (InVec fv) false = rmap (out_of false rg) (core F rg fv) /\
+  (forall flag, forward q F rg dg (InArr dg true p) flag = rmap (out_of true rg) (core F rg fv)) /\
+  (forall flag, forward q F rg dg (InArr dg false fv) flag = rmap (out_of true rg) (core F rg fv)) /\
+  (forall st, rmap (fun y => g_fun2par rg y) (fst (pde_forward_func P slv st fv)) = Ok (core F rg fv)).
+Proof. exact pde_representations_agree. Qed.
+Print Assumptions C12_pde_representations_agree.
+
+Theorem C12_pde_samples_columnwise : forall q P slv rg dg cols outs,
+  forward q (pde_fwd P slv) rg dg (InSamples false cols) true = Ok (OutSamples rg outs) <->
+  Forall2 (fun c o => forward q (pde_fwd P slv) rg dg (InVec c) true = Ok (out_of false rg o)) cols outs.
+Proof. exact pde_samples_columnwise. Qed.
+Print Assumptions C12_pde_samples_columnwise.
+
+Example C12_pde_example :
+  inv_ok 3 (qmat [[0#1; 2#1; 0#1]; [1#1; 0#1; 0#1]; [1#2; 1#1; 4#1]]) = true /\
+  inv_ok 3 (pde_xop (qmat [[1#1; 0#1; 0#1]; [-1#1; 1#1; 0#1]; [1#1; 1#1; 1#1]]) (qvec [1#2; -2#1; 3#1])) = true /\
+  inv_ok 2 (qmat [[1#1; 2#1]; [2#1; 4#1]]) = false.
+Proof. exact pde_example. Qed.
